@@ -402,7 +402,13 @@ func c03ForeignDriver(maxArity int) func(c *explore.Chooser, k int) *c03Case {
 			res, goRes, ret = "()", "", ""
 		}
 		if resTP {
-			tps = append(append([]string{}, tps...), "R")
+			// R is declared last or (a choice, when there are other type parameters) first: with R first a
+			// PREFIX of the explicit type-argument list suffices, the rest being inferred from the arguments
+			if ntp > 0 && c.Bool() {
+				tps = append([]string{"R"}, tps...)
+			} else {
+				tps = append(append([]string{}, tps...), "R")
+			}
 			res, goRes, ret = "R", " R", "\tvar z R\n\treturn z\n"
 		}
 		tpDecl, goTp := "", ""
@@ -460,12 +466,24 @@ func c03ForeignDriver(maxArity int) func(c *explore.Chooser, k int) *c03Case {
 			if ntp == 0 && !resTP {
 				c.Skip("explicit type arguments need type parameters")
 			}
-			var tas []string
-			for i := 0; i < ntp; i++ {
-				tas = append(tas, params[i].fo)
+			// the explicit list: complete, or any prefix that still contains R (the others are inferable)
+			minLen := 1
+			for i, t := range tps {
+				if t == "R" {
+					minLen = i + 1
+				}
 			}
-			if resTP {
-				tas = append(tas, "string")
+			taLen := minLen + c.Choose(len(tps)-minLen+1)
+			var tas []string
+			for _, t := range tps[:taLen] {
+				switch t {
+				case "R":
+					tas = append(tas, "string")
+				case "A":
+					tas = append(tas, params[0].fo)
+				case "B":
+					tas = append(tas, params[1].fo)
+				}
 			}
 			head = qual + "<" + strings.Join(tas, ", ") + ">"
 		}
